@@ -151,3 +151,12 @@ Definition not_linear (ps : programs) : list Z :=
   map fst (filter (fun fp => negb (linear_prog ps (snd fp))) ps).
 (* the constants of the bound: cost <= coef ps * len + size ps *)
 Definition coef (ps : programs) : Z := 2 * (size ps + 1).
+
+(* message-level entry points (hand-written code that buffers a payload of a header-declared length n before
+   a decoder runs): tools/go-ir reports, for every make([]byte, n), the guard `n OP C` that dominates it — a
+   plain comparison of the unconverted uint32 field with a constant, so no wrap-around is possible — or counts
+   it as unguarded.  Accepted: OP in {>, >=} (the allocation happens when the comparison is false). *)
+Definition entry_ok (g : cmp * Z) : bool :=
+  match fst g with CGt | CGe => 0 <=? snd g | _ => false end.
+Definition entries_ok (gs : list (cmp * Z)) (unguarded : Z) : bool := forallb entry_ok gs && (unguarded =? 0).
+Definition entry_limit (gs : list (cmp * Z)) : Z := fold_right (fun g m => Z.max (snd g) m) 0 gs.
